@@ -106,6 +106,8 @@ class FlagEnv:
       out.setdefault("*", 1)
       out.setdefault("?", 1)
       return out
+    if isinstance(n, ast.Call) and isinstance(n.func, ast.Name) and n.func.id == "int" and len(n.args) == 1:
+      return self._bits(n.args[0])
     if isinstance(n, ast.BinOp) and isinstance(n.op, (ast.BitAnd, ast.BitOr)):
       a, b = self._bits(n.left), self._bits(n.right)
       if a is None or b is None:
@@ -148,6 +150,21 @@ class FlagEnv:
       if v is U:
         return U
       return (not v) if isinstance(n.ops[0], ast.Eq) else v
+    if isinstance(n, ast.Compare) and len(n.ops) == 1 and isinstance(n.ops[0], (ast.Eq, ast.NotEq)):
+      # equality of two flag words, bit by bit: `(flags & MASK) != MASK`
+      a, b = self._bits(n.left), self._bits(n.comparators[0])
+      if a is not None and b is not None:
+        eq: Optional[bool] = True
+        for k in set(a) | set(b) | {"*", "?"}:
+          x = a.get(k, a.get("?", 0) if k != "*" else 0)
+          y = b.get(k, b.get("?", 0) if k != "*" else 0)
+          if x is U or y is U:
+            eq = U if eq is not False else False
+          elif x != y:
+            eq = False
+        if eq is U:
+          return U
+        return eq if isinstance(n.ops[0], ast.Eq) else (not eq)
     if isinstance(n, ast.Call) and isinstance(n.func, ast.Name) and n.func.id == "bool" and len(n.args) == 1:
       return self._h(n.args[0])
     if isinstance(n, ast.Constant) and isinstance(n.value, bool):
